@@ -53,8 +53,11 @@ CLAIMED = {
              "proved against an abstract key-value store: each postcondition determines every stored key (the keys written/removed and the frame), "
              "invalid elements change nothing, DelEdge removes exactly the edge key and its two adjacency entries, DeleteGraph removes every key of the "
              "graph's five families and none of another graph, and the timestamp is touched exactly for the mutated graph; DelVertex and BulkAdd likewise "
-             "(with the recorded findings); the point reads GetVertex/GetEdge return the element stored under the id's key and nil when it is absent. "
-             "The list and channel readers and the composition over histories are not under contract.",
+             "(with the recorded findings); the point reads GetVertex/GetEdge return the element stored under the id's key and nil when it is absent; the producers of GetVertexList/GetEdgeList emit exactly one element per "
+             "stored key under the graph's prefix, carrying that key's components, in increasing key order, and write nothing (context not cancelled, keys "
+             "well formed); the batch and adjacency readers (GetVertexChannel, GetOutChannel, GetInChannel, GetOutEdgeChannel, GetInEdgeChannel) answer requests in order, "
+             "pass signals on, build every answer from one stored index entry under the requested vertex's prefix with an admitted label (nothing invented), give null answers only with emitNull, "
+             "give exactly one answer per stored entry when no label filter applies, and write nothing. Label scans through the secondary index, completeness under a label filter and the composition over histories are not decided.",
         ref="§5 C03",
         note=TRUST + " Assumed: the kvi interface contract (spec/kv.gvc: one ordered byte-string map; proved per driver under C10), AddDocTx writes only "
              "index keys, proto.Marshal/Unmarshal inverse, byte-order and prefix axioms of spec/kv.smt2 and spec/keys.smt2.",
